@@ -195,6 +195,10 @@ pub struct GenRec {
     /// connections the server's epoll set held before that call
     pub decided_poll: Option<u64>,
     pub decided_entries: usize,
+    /// step at which the client shut down its reading side
+    pub shut_rd_step: Option<usize>,
+    /// steps at which the application supplied responses for this generation
+    pub supplied_steps: Vec<usize>,
 }
 
 impl GenRec {
@@ -394,6 +398,8 @@ impl Sim {
             sends: 0,
             decided_poll: None,
             decided_entries: 0,
+            shut_rd_step: None,
+            supplied_steps: Vec::new(),
         });
         self.current[client] = Some(self.gens.len() - 1);
         true
@@ -547,7 +553,10 @@ impl Sim {
             let _ = s.shutdown(how);
         }
         match how {
-            std::net::Shutdown::Read => g.shut_rd = true,
+            std::net::Shutdown::Read => {
+                g.shut_rd = true;
+                g.shut_rd_step = Some(self.step);
+            }
             std::net::Shutdown::Write => g.shut_wr = true,
             std::net::Shutdown::Both => {
                 g.shut_rd = true;
@@ -631,6 +640,7 @@ impl Sim {
         });
         if let Some(gi) = o.gen_idx {
             self.gens[gi].supplied.push((o.tag.clone(), blen));
+            self.gens[gi].supplied_steps.push(self.step);
         }
         match guarded(|| self.server.respond(resp)) {
             Err(p) => {
